@@ -264,6 +264,10 @@ pub fn alphabet(c: &CmdSpec) -> Vec<Vec<u8>> {
         add("w、x".as_bytes());
         add("--opt=w、".as_bytes());
         add("-ow、x".as_bytes());
+        // values that end inside the delimiter's own byte sequence (E3 80 81): not valid UTF-8
+        add(b"w\xe3");
+        add(b"--opt=w\xe3\x80");
+        add(b"-ow\xe3");
     }
     if c.has(Setting::InferLongArgs) {
         add(b"--al");
